@@ -1,4 +1,13 @@
-"""Per-property configuration of the /verif checks."""
+"""Per-property configuration of the /verif checks: loads lib/pp/Cxx.py modules.
+
+Each module defines
+  CFG   : dict(sub=<harness sub-command>, gens=[(generator, output.v)], coq_files=[...], props='Props_Cxx.v',
+               run='Run_Cxx.v', rule=..., assumptions=[...], trusted_extra=[...], widen_runs=int, widen_n=int)
+  CODES : {verdict code: meaning}   codes < 200 = the observation violates the property (SPECFAIL),
+                                    codes >= 200 = the implementation differs from the model (MISMATCH)
+  LEVEL : dict(text=..., design_ref=..., note=..., technique=...)   (MANIFEST level_claimed)
+"""
+import importlib, os, sys
 
 ALLOWED_AXIOMS = {
     # axioms the standard library declares; named in DESIGN.md section 5
@@ -14,47 +23,16 @@ TRUSTED_BASE = [
     'no axioms of our own; axioms per theorem as listed under axioms_per_theorem (Print Assumptions)',
 ]
 
-CODES = {
-    'C19': {
-        101: 'int64: decode(encode v) != v', 102: 'int64: byte order of keys != value order',
-        111: 'uint64 round trip', 112: 'uint64 order',
-        121: 'float64: decode(encode v) is not IEEE-equal to v', 122: 'float64: byte order of keys != IEEE order',
-        131: 'string round trip', 132: 'string order',
-        141: 'float32 vector round trip', 151: 'edge list round trip', 156: 'uint64 LE round trip',
-        161: 'node key does not decode to its id', 162: 'node key accepted/refused under the wrong suffix',
-        171: 'document key does not decode to its id', 176: 'term key does not decode to its term',
-        181: 'range scan visited keys != keys in range', 186: 'prefix scan visited keys != keys with prefix',
-        201: 'int64 key bytes differ from model', 202: 'int64 decode differs from model', 203: 'int64 key bytes (2nd) differ',
-        211: 'uint64 key bytes differ from model', 212: 'uint64 decode differs',
-        221: 'float64 key bytes differ from model', 222: 'float64 decode differs from model',
-        231: 'string key differs', 241: 'float32 vector bytes differ', 242: 'float32 vector decode differs',
-        251: 'edge list bytes differ', 252: 'edge list decode differs', 256: 'uint64 LE bytes differ', 257: 'uint64 LE decode differs',
-        261: 'node key bytes differ from model', 266: 'point key bytes differ from model',
-        271: 'document key bytes differ', 276: 'term key bytes differ',
-        281: 'NodeIdFromKey differs from model on raw key', 282: 'term IdFromKey differs on raw key', 283: 'doc IdFromKey differs on raw key',
-        285: 'range scan differs from cursor model', 286: 'prefix scan differs from cursor model',
-    },
-}
+PROPS, CODES, LEVEL = {}, {}, {}
+_d = os.path.join(os.path.dirname(os.path.abspath(__file__)), 'pp')
+sys.path.insert(0, _d)
+for _f in sorted(os.listdir(_d)):
+    if _f.endswith('.py') and _f[0] == 'C':
+        _m = importlib.import_module(_f[:-3])
+        PROPS[_f[:-3]] = _m.CFG
+        CODES[_f[:-3]] = getattr(_m, 'CODES', {})
+        LEVEL[_f[:-3]] = _m.LEVEL
 
 
 def describe(pid, code):
     return CODES.get(pid, {}).get(code, 'code %d' % code)
-
-
-PROPS = {
-    'C19': {
-        'sub': 'c19',
-        'gens': [('gen_key_layout.py', 'KeyLayout.v')],
-        'coq_files': ['Bytes.v', 'U64.v', 'KeyLayout.v', 'KV.v', 'Model_C19.v', 'Proofs_C19.v', 'Props_C19.v', 'Run_C19.v'],
-        'props': 'Props_C19.v', 'run': 'Run_C19.v',
-        'widen_runs': 4,
-        'rule': 'boundary pools (min/max int64, +-0.0, subnormals, infinities, 2^k and neighbours, strings that are prefixes of each other, '
-                'non-UTF8 bytes) plus seeded random values per type; every value paired with its neighbour in sorted order and a random other; '
-                'raw and mutated keys into the key decoders; range/prefix scans over real bbolt and memstore buckets. '
-                'distinct = distinct (kind, input) pairs; every case exercises at least one encoder branch so all are non-trivial',
-        'assumptions': ['float identity is IEEE equality: -0.0 and +0.0 are one value (DESIGN 4.19)',
-                        'NaN is outside the property; bit patterns are compared through math.Float64bits',
-                        'bbolt cursor order is the byte order (validated by the scan cases, not proved)'],
-        'trusted_extra': ['translator gen/gen_key_layout.py (regex extraction of key-layout constants and xor masks from the Go sources)'],
-    },
-}
